@@ -125,6 +125,11 @@ func (s *Stream) ExecuteFlow(
 			if shortCircuitNode, err = s.ExecuteFlow(flow, apiStream, targetNode, actions); err != nil {
 				return shortCircuitNode, fmt.Errorf("failed to execute flow: %w", err)
 			}
+			if shortCircuitNode != nil {
+				// a processor down this connection answered the request itself: the rest of
+				// the request path (the sibling connections) is skipped
+				return shortCircuitNode, nil
+			}
 		}
 	}
 	return shortCircuitNode, nil
